@@ -5,6 +5,7 @@ CONSTANTS
   Inners = {"chatIn", "chatOut", "spoof", "noBody", "error", "rich"}
   Gens = {"v1", "v2"}
   JidCfgs = {"plain", "nores", "mixed"}
+  Estabs = {"configured"}
   Hows = {}
   MaxHist = 99
 VIEW TourView
